@@ -885,6 +885,14 @@ def run(tier, rep):
         spaces[-1].history(i) for i in range(
             spaces[-1].hs.total - 40, spaces[-1].hs.total)) if h][:3],
         limit=8)
+    from mc.checks import c14il
+    c14il.run(tier, rep, printers)
+    rep.cov['rule'] += (
+        '.  Interleaved part (c14il.py): one state = one schedule of two '
+        'LIVE print calls (generators advanced alternately, every schedule '
+        'with the stated number of pre-emptions at fragment boundaries); '
+        'each call of each schedule is compared with the fresh-process '
+        'baseline')
     rep.assumptions += [
         'a call can influence a later call only through (a) the printer '
         'object, (b) the tree objects, (c) global state of calmjs.parse '
@@ -893,9 +901,9 @@ def run(tier, rep):
         'history (after every call when a witness is confirmed); state kept '
         'in C extensions or outside calmjs.parse.* (e.g. the logging module) '
         'is not fingerprinted',
-        'an abandoned generator is closed at once (CPython reference '
-        'counting); generators that stay suspended while other calls run, '
-        'and calls interleaved fragment by fragment, are not explored',
+        'in the history spaces an abandoned generator is closed at once '
+        '(CPython reference counting); generators that stay suspended '
+        'while other calls run are explored by the interleaved part only',
         'a raising call is modelled by one kind of malformation (a node '
         'without definition -> KeyError); the exception text is not judged, '
         'only the fragments before it and the fact that it raises again',
@@ -903,6 +911,9 @@ def run(tier, rep):
 
 
 def replay(w):
+    if 'interleave' in w:
+        from mc.checks import c14il
+        return c14il.replay(w['interleave'])
     base = H.fresh_child(compute_baselines, PRINTERS7)
     hs = [list(h) for h in w['histories']]
 
